@@ -241,7 +241,10 @@ static void sim_exec_top(sim_inst *I, const sim_xop *x)
 #if SIM_HAS_TABLES
 	case SOP_TABLES_LOAD: {
 		FILE *tf = sim_tables_file(x);
-		int r = yytables_fload(tf SC__);
+		int r;
+		I->tables_loaded = 2;     /* partially loaded until proven complete */
+		r = yytables_fload(tf SC__);
+		fclose(tf);
 		sim_res_int("fload", r);
 		if (r == 0)
 			I->tables_loaded = 1;
